@@ -30,6 +30,10 @@ TEMPLATES = {
     "filter": "print([i for i in range(2) if {E}])\n",
     "not": "if not {E}:\n    print(1)\nprint(2)\n",
     "ifand": "if {E} and mark():\n    print(1)\nelse:\n    print(2)\n",
+    "for_iter": ("def g():\n    for _i in {E}:\n        return 5\n    print(3)\n    return 6\n\n\n"
+                 "try:\n    print(g())\nexcept TypeError:\n    print(4)\n"),
+    "for_iter_else": ("def g():\n    for _i in {E}:\n        print(5)\n        break\n    else:\n        return 7\n    print(3)\n    return 6\n\n\n"
+                      "try:\n    print(g())\nexcept TypeError:\n    print(4)\n"),
     "elif": "if mark() == 8:\n    print(0)\nelif {E}:\n    print(1)\nelse:\n    print(2)\n",
 }
 
@@ -93,6 +97,10 @@ def run(rep: Report, t: str, stats: Dict[str, int]):
     for e in c15.EXTRA_EXPRS:
         for k in kinds + ["value"]:
             programs.append(((e, k), PRELUDE + (TEMPLATES[k] if k != "value" else "print({E})\n").replace("{E}", "(" + e + ")")))
+    # iterator objects: only in positions that test or iterate them (their repr is an address)
+    for e in c15.LAZY_EXPRS:
+        for k in ("for_iter", "for_iter_else", "if", "not", "ifand", "ifexp", "while", "assert", "elif"):
+            programs.append(((e, k), PRELUDE + TEMPLATES[k].replace("{E}", e)))
     # displays that are NOT constants although they look non-empty: truthiness depends on what is unpacked
     for e in ("[*extra]", "(*extra,)", "{*extra}", "[*extra, *more]", "{**table}"):
         for k in ("or", "and", "if", "ifexp", "not", "ifand"):
